@@ -1,10 +1,10 @@
 #!/bin/bash
-# Confirms a seeded change in the scratch worktree /tmp/mutwt (HEAD of /repo):
+# Confirms a seeded change in the scratch worktree /tmp/confwt (HEAD of /repo):
 #  1. with the patch: builds, and the repository's whole test suite passes;  2. the demonstration fails with the patch;
 #  3. the demonstration passes without it.   usage: confirm_mutant.sh <dir with patch.diff and demo.rs> [demo features]
 D=$(readlink -f "$1"); FEAT=${2:-mocks}
-cd /tmp/mutwt && git checkout -q --detach $(git -C /repo rev-parse HEAD) && git reset -q --hard && git clean -qfd -e target
-export CARGO_TARGET_DIR=/tmp/mutwt/target
+[ -d /tmp/confwt ] || git -C /repo worktree add -q --detach /tmp/confwt HEAD; cd /tmp/confwt && git checkout -q --detach $(git -C /repo rev-parse HEAD) && git reset -q --hard && git clean -qfd -e target
+export CARGO_TARGET_DIR=/tmp/confwt/target
 git apply "$D/patch.diff" || { echo "RESULT patch-does-not-apply"; exit 2; }
 cargo build --offline --features verif-hooks > /tmp/confirm.log 2>&1 || { echo "RESULT does-not-build"; git reset -q --hard; exit 1; }
 timeout 900 cargo test --workspace --no-fail-fast --offline > /tmp/confirm_suite.log 2>&1; suite=$?
